@@ -645,10 +645,12 @@ fn build_lists<'a>(
 
 fn list_item<'a>(s: &'a SimpleTerm<'a>, d: &'a PrettifiableDataset) -> Option<&'a SimpleTerm<'a>> {
     let mut ret = None;
+    let mut rest_seen = false;
     for q in d.quads_matching([s], Any, Any, Any) {
         let q = q.unwrap();
-        if rdf::rest == q.p() {
-            continue;
+        if rdf::rest == q.p() && !rest_seen {
+            // a list node must have exactly one rdf:rest
+            rest_seen = true;
         } else if rdf::first == q.p() && ret.is_none() {
             ret = Some(q.o());
         } else {
